@@ -462,7 +462,8 @@ pub fn gen_proxy(seed: u64, prop: &str, tier: &str) -> Value {
                 "C05" | "C04" | "C14" | "C15" => *r.pick(&["wire", "ga", "imds", "imds", "other_redirected"]),
                 _ => *r.pick(&["wire", "ga", "imds", "imds", "direct", "self", "other", "other_redirected"]),
             };
-            let nreq = 1 + r.below(4);
+            // (C01: longer keep-alive conversations, so that one connection carries requests the policy treats differently)
+            let nreq = 1 + r.below(if prop == "C01" { 9 } else { 4 });
             let mut reqs = Vec::new();
             for _ in 0..nreq {
                 tokn += 1;
